@@ -36,6 +36,9 @@ sh("git checkout -q -- . && git clean -fdq", cwd=f"{W}/repo", check=False)
 if patch:
     r = sh(["git", "apply", patch], cwd=f"{W}/repo", check=False)
     if r.returncode != 0:
+        r = sh(["git", "apply", "-3", patch], cwd=f"{W}/repo", check=False)
+        print("applied with 3-way merge" if r.returncode == 0 else "3-way failed")
+    if r.returncode != 0:
         print("PATCH DOES NOT APPLY:", r.stderr[-1500:]); sys.exit(3)
 if revert:
     r = sh(["git", "revert", "--no-commit", revert], cwd=f"{W}/repo", check=False)
